@@ -25,7 +25,7 @@ type Scenario struct {
 	S    int  // 2: like 1, and its ELECTION_VOTE reaches the elected leader FIRST, reporting the highest lock certificate seen on the network with a root-chain build height nobody accepts (World.lockVeto); 1: the Byzantine node additionally spams every honest node, after every timer generation, with an absurd pacemaker claim and a far-future ELECTION_VOTE (World.Spam)
 	U    int  // 1: the Byzantine node is NOT this round's elected leader but acts as one (mode L) with a REPLAYED election certificate: the +2/3 ELECTION_VOTE certificate of an earlier round of this root height in which it was elected; its PROPOSE follows the elected leader's
 	T    int  // late delivery (Late configurations): 1 every PROPOSE, 2 every PRECOMMIT, 3 every COMMIT that the other choices let through reaches its recipient only AFTER the recipient's next phase timer fired - too late to be voted on / locked on / committed, but stored
-	L    int  // Byzantine leader: 0 honest; 1,2 re-proposes known certificate 0/1 with that certificate as HighQc; 3 proposes a fresh block with no justification; 4 equivocates (X to one half of the honest nodes, X' to the other); 5,6 like 1,2 with the latest certificate; 7 equivocates on the certificate RESULTS only (same block, results R / R'); 8 proposes the first certified block again with OTHER results and no justification; 9 proposes one fresh block to everybody but the first live honest node's copy carries another (unsigned) root-chain build height
+	L    int  // Byzantine leader: 0 honest; 1,2 re-proposes known certificate 0/1 with that certificate as HighQc; 3 proposes a fresh block with no justification; 4 equivocates (X to one half of the honest nodes, X' to the other); 5,6 like 1,2 with the latest certificate; 7 equivocates on the certificate RESULTS only (same block, results R / R'); 8 proposes the first certified block again with OTHER results and no justification; 9 proposes one fresh block to everybody but the first live honest node's copy carries another (unsigned) root-chain build height; 10 proposes a fresh block whose HighQc is forged from its own ELECTION_VOTE certificate of this round (wrong phase, block hashes pasted in)
 }
 
 func (s Scenario) String() string {
@@ -408,6 +408,15 @@ func (w *World) puppet(rc *roundCtx, phaseFired lib.Phase) {
 			bx, rx := MakeBlock(byz, rc.rh, rc.round, 9)
 			h, _ := new(lib.Block).BytesToBlockHash(bx)
 			rc.tracks = []*track{{block: bx, results: rx, bh: h, rh: rx.Hash(), rcBuild: rc.rh, to: all}}
+		case rc.sc.L == 10:
+			// a fresh block "justified" by a certificate of the WRONG PHASE: the leader's own +2/3 ELECTION_VOTE certificate of
+			// this very round (its sign bytes cover the header and the proposer key only) with the fresh block's hashes pasted
+			// next to it. It outranks every real lock (same root height, current round); a HighQc must be a PROPOSE_VOTE certificate
+			bx, rx := MakeBlock(byz, rc.rh, rc.round, 10)
+			h, _ := new(lib.Block).BytesToBlockHash(bx)
+			hq := &lib.QuorumCertificate{Header: rc.tmpl.Qc.Header.Copy(), BlockHash: h, ResultsHash: rx.Hash(), ProposerKey: rc.tmpl.Qc.ProposerKey,
+				Signature: rc.tmpl.Qc.Signature, Block: bx, Results: rx}
+			rc.tracks = []*track{{block: bx, results: rx, bh: h, rh: rx.Hash(), highQc: hq, rcBuild: rc.rh, to: all}}
 		case rc.sc.L == 3:
 			// a fresh block with no justification at all, whatever locks the replicas hold
 			bx, rx := MakeBlock(byz, rc.rh, rc.round, 3)
